@@ -78,6 +78,39 @@ def run(ctx):
                     consumers=DIGEST + ['*ProtocolMessage::compute_legacy_digest_bytes'],
                     exempt={'hash_scheme': 'selects the digest layout; only one scheme exists in this build'})
 
+    # the key is fed as its Display text: that text must tell the keys apart (seed C04-4: two variants wrote the same literal, so the
+    # same value under either key gave one digest and match_message accepted one for the other)
+    PMK = E + 'protocol_message::ProtocolMessagePartKey'
+    dk = ctx.try_fn('b', '<' + PMK + ' as std::fmt::Display>::fmt')
+    if dk is not None:
+        try:
+            nvar = len(ctx.ws.adt(PMK)['variants'])
+        except Exception as e:  # noqa
+            nvar = None
+            R.missing('b', e)
+        texts = []
+        raw = getattr(dk, '_orig', dk)
+        for st in raw.unit.fmt:
+            if st['file'] == raw.file and raw.l0 <= st['line'] <= raw.l1:
+                texts.append((''.join(pc[1] for pc in st['pieces'] if pc[0]), sum(1 for pc in st['pieces'] if not pc[0])))
+        for g in dk.family():
+            for c in g.body.calls():
+                if any(n.endswith(('Formatter::write_str', 'Formatter::pad')) for n in c.names()) and len(c.args) > 1:
+                    v = g.body.const_of(c.args[1])
+                    if isinstance(v, str):
+                        texts.append((v, 0))
+        inst = 'Display for ProtocolMessagePartKey (the text fed to the digest) writes a distinct literal for every key'
+        lits = [t for t, nph in texts if nph == 0]
+        dup = sorted({t for t in lits if lits.count(t) > 1})
+        if nvar is not None:
+            if len(lits) >= nvar and not dup and len(lits) == len(texts):
+                R.ok('b', 'R12', inst, '%d variants, %d distinct literals' % (nvar, len(set(lits))), dk.loc())
+            elif dup:
+                R.violation('b', 'R12', inst, 'part_key:display-injective', 'the literal(s) %s are written for more than one key: the digest no longer tells those keys apart' % dup, dk.loc())
+            else:
+                R.missing('b', 'Display for ProtocolMessagePartKey is not a table of %d literals (%d literal sites, %d templated): injectivity not decided' % (
+                    nvar, len(lits), len(texts) - len(lits)))
+
     # (c)
     ctx.field_cover('c', E + 'signed_entity_type::SignedEntityType', E + 'signed_entity_type::SignedEntityType::feed_hash', consumers=DIGEST)
     ctx.field_cover('c', E + 'cardano_db_beacon::CardanoDbBeacon', E + 'signed_entity_type::SignedEntityType::feed_hash', consumers=DIGEST)
